@@ -489,6 +489,7 @@ FlagsReset ==
 (* Constant definitions for the configurations (nested tuples cannot be written in a .cfg).  *)
 MC_ExpType == <<84>>                               \* "T"
 MC_LineTypes == {<<84>>, <<70>>}                   \* "T", "F"
+MC_LineTypes1 == {<<84>>}
 MC_TxtSet == {<<120>>, <<35>>, <<35, 84, 58>>}     \* x  #  #T:
 MC_CsiSet == {<<<<>>, 109>>, <<<<53>>, 72>>, <<<<>>, 72>>, <<<<33>>, 112>>}   \* ESC[m  ESC[5H  ESC[H  ESC[!p
 MC_Base64 == (48..57) \cup (65..90) \cup (97..122) \cup {43, 47, 61}      \* what encodeBytes / FormatInt emit
